@@ -22,6 +22,12 @@ let handle (f : string array) : string =
     let ops = List.map (fun s -> (s.[0] = 'd', bytes_of_hex (String.sub s 1 (String.length s - 1)))) (split_list f.(3)) in
     show (fun outs -> "ok " ^ String.concat "," (List.map hex_of_bytes outs))
       (bind (newCipher key) (fun c -> run_history c ops))
+  | "N" ->
+    (* NewCipher read the key VALUES; what the caller writes into its key buffer afterwards is not an input of the object *)
+    let key = bytes_of_hex f.(2) in
+    let ops = List.map (fun s -> (s.[0] = 'd', bytes_of_hex (String.sub s 1 (String.length s - 1)))) (split_list f.(4)) in
+    show (fun outs -> "ok " ^ String.concat "," (List.map hex_of_bytes outs) ^ " " ^ f.(3))
+      (bind (newCipher key) (fun c -> run_history c ops))
   | "A" ->
     let key = bytes_of_hex f.(2) in
     let mem = bytes_of_hex f.(4) in
